@@ -402,6 +402,17 @@ class Gen:
                 delta = rng.choice([1, 3, 16, 0x20, 0x100]) if not self.prog.has_segments else rng.choice([1, 2, 3])
                 out.append(Stmt("setpc", scope, delta=delta))
                 self.nbytes += delta if self.prog.has_segments else 0
+            elif r < 0.77 and depth == 0 and not in_macro and not in_import and not in_loop and rng.random() < k.get("p_setpc_back", 0.0):
+                # a few bytes, then `* = * - j` back over some of them, then one item that is longer than what is left: it starts
+                # below the highest address written so far and ends above it (what is written later wins)
+                kb = rng.randrange(2, 7)
+                out.append(Stmt("data", scope, size=".byte", exprs=[("num", rng.randrange(256), None) for _ in range(kb)]))
+                out.append(Stmt("setpc", scope, delta=-rng.randrange(1, kb + 1)))
+                if rng.random() < 0.5:
+                    out.append(Stmt("data", scope, size=".dword", exprs=[("num", rng.randrange(1 << 32), None)] * rng.randrange(1, 3)))
+                else:
+                    out.append(Stmt("text", scope, enc=None, text="".join(rng.choice("abcdefgh01234") for _ in range(rng.randrange(7, 12)))))
+                self.nbytes += kb + 12
             elif r < 0.79 and rng.random() < k["p_align"]:
                 out.append(Stmt("align", scope, n=rng.choice([2, 4, 8, 16, 3])))
                 self.nbytes += 8
@@ -511,6 +522,9 @@ class Gen:
             params.append(Def("p%d" % i, "param", sc))
         st = Stmt("macrodef", scope, d=d, params=params, bscope=sc, block=None)
         st.block = self.gen_block(sc, 1, self._nstmts(1, 5), in_macro=True)
+        if self.prog.has_segments and len(self.prog.segments) > 1 and rng.random() < self.k.get("p_macro_segment", 0.0):
+            # a macro that switches the segment without a block: what follows the invocation goes to that segment too
+            st.block.append(Stmt("seguse", sc, name=rng.choice(self.prog.segments).name, block=None))
         self.macros.append(st)
         self.prog.features.add("macro")
         return st
